@@ -665,12 +665,20 @@ fn judge_tcp_lines(lines: &[String], chunk_seed: u32) -> Result<(), String> {
     Ok(())
 }
 
+/// one-batch schedule only (deterministic): used by the libFuzzer target
+pub fn judge_lines_pub(lines: &[String]) -> Result<(), String> {
+    judge_lines(lines, Schedule::AllBefore, 1).map(|_| ())
+}
+
 fn lines_json(lines: &[String], sched: &str) -> Value {
     json!({"kind": "control-lines", "lines": lines, "schedule": sched})
 }
 
 pub fn run(ctx: &Ctx) -> i32 {
     if let Some(v) = &ctx.replay {
+        if let Some(code) = replay_fuzz(P, v) {
+            return code;
+        }
         let case = v.get("case").unwrap_or(v);
         let quiet = Redirect::start(false);
         let r: Result<(), String> = if let Some(lines) = case.get("lines").and_then(|l| l.as_array()) {
@@ -831,6 +839,9 @@ pub fn run(ctx: &Ctx) -> i32 {
     });
     stats.merge(tstats);
     drop(quiet);
+    if tier == Tier::Thorough {
+        fuzz_campaign(ctx, "fuzz_lines", 8, 40_000, 1024, &mut stats);
+    }
     let rule = "cases = proptest-generated sequences of 0-40 control lines from the protocol grammar (u8 writes to a pool of 8 RAM/DRAM cells incl. region ends, to port DDR/DR 1-A and to unmapped addresses; ioport pin lines incl. invalid ports; cmd:pause/start/stop incl. an early stop; ~27 malformed shapes: wrong field counts such as `cmd:a:b`, non-hex, empty, over-long, negative, prefixed, upper-case heads, unknown heads, empty line, non-ASCII) delivered to a guest echo loop under three schedules (all lines queued before the loop starts = one deterministic batch; one line per short pause; random bursts from a second thread), always ended by cmd:stop with a watchdog (a stop that is not acted on is a lost line, a real hang is exit 2); plus real-TCP runs: guests that emit adversarial UTF-8 texts (newline, backslash, `\\\\n`, multi-byte) whose wire bytes are split on newline and unescaped with the harness's own inverse, and line sequences written to the socket in odd chunks. Oracle = reference interpreter of the protocol (byte map, pins, latch/direction): final cells, pin bytes, DDR, DR reads and the sequence of announced output changes equal the model for every schedule; one wire line per emitted message, in order, unescape(line) == message, escape injective. Non-trivial = a malformed/ineffective line followed by an effective one, or a pause..start window containing effective lines, or an outgoing text with newline/backslash.";
     finish(ctx, P, stats, rule, vec!["interleavings of the socket worker threads with the CPU loop are sampled by the OS, not enumerated; the one-batch schedule is deterministic".into(), "that a paused guest executes nothing is not asserted (it would need a wall-clock absence check)".into()], Map::new())
 }
